@@ -47,3 +47,18 @@ PROPS['C07'] = dict(
     assumptions=COMMON_ASSUMPTIONS, job_limit_s=120,
     explanation='C07: error propagation and no-crash obligations generated from the real signature table.',
 )
+
+PROPS['C01'] = dict(
+    unit_modules=[], driver_modules=['drivers.c01'], level='other',
+    level_text='tbd', level_note='tbd', assumptions=COMMON_ASSUMPTIONS,
+)
+
+PROPS['C02'] = dict(
+    unit_modules=[], driver_modules=['drivers.c02'], level='other',
+    level_text='tbd', level_note='tbd', assumptions=COMMON_ASSUMPTIONS,
+)
+
+PROPS['C03'] = dict(
+    unit_modules=[], driver_modules=['drivers.c03'], level='other',
+    level_text='tbd', level_note='tbd', assumptions=COMMON_ASSUMPTIONS,
+)
